@@ -200,6 +200,9 @@ func (p *Prog) isNonNilExpr(f *Func, e ast.Expr) bool {
 		if v, ok := f.Pkg.TypesInfo.Uses[x].(*types.Var); ok && !v.IsField() && v.Parent() == v.Pkg().Scope() && strings.HasPrefix(v.Name(), "Err") {
 			return true
 		}
+		if v, ok := f.Pkg.TypesInfo.Uses[x].(*types.Var); ok && p.sentinels()[v] {
+			return true
+		}
 	case *ast.SelectorExpr:
 		if v, ok := f.Pkg.TypesInfo.Uses[x.Sel].(*types.Var); ok && !v.IsField() && v.Pkg() != nil && v.Parent() == v.Pkg().Scope() && strings.HasPrefix(v.Name(), "Err") {
 			return true
@@ -786,4 +789,91 @@ func isVarDeclNode(a ast.Node) bool {
 		return true
 	}
 	return false
+}
+
+// sentinels: package-level error variables of the module that are initialised
+// with errors.New / fmt.Errorf in their declaration and never assigned (nor
+// have their address taken) anywhere: non-nil by construction, whatever their name.
+func (p *Prog) sentinels() map[*types.Var]bool {
+	if p.sentinelVars != nil {
+		return p.sentinelVars
+	}
+	out := map[*types.Var]bool{}
+	for _, pkg := range p.Pkgs {
+		if pkg.Types == nil || !strings.HasPrefix(pkg.PkgPath, modPath) {
+			continue
+		}
+		for _, file := range pkg.Syntax {
+			for _, d := range file.Decls {
+				gd, ok := d.(*ast.GenDecl)
+				if !ok || gd.Tok != token.VAR {
+					continue
+				}
+				for _, sp := range gd.Specs {
+					vs, ok := sp.(*ast.ValueSpec)
+					if !ok || len(vs.Values) != len(vs.Names) {
+						continue
+					}
+					for i, nm := range vs.Names {
+						v, _ := pkg.TypesInfo.Defs[nm].(*types.Var)
+						call, isCall := ast.Unparen(vs.Values[i]).(*ast.CallExpr)
+						if v == nil || !isCall || !isErrorType(v.Type()) {
+							continue
+						}
+						if fn, ok := typeutilCallee(pkg.TypesInfo, call); ok && (fn == "errors.New" || fn == "fmt.Errorf") {
+							out[v] = true
+						}
+					}
+				}
+			}
+		}
+	}
+	for _, pkg := range p.Pkgs {
+		if pkg.Types == nil || !strings.HasPrefix(pkg.PkgPath, modPath) {
+			continue
+		}
+		for _, file := range pkg.Syntax {
+			ast.Inspect(file, func(n ast.Node) bool {
+				switch x := n.(type) {
+				case *ast.AssignStmt:
+					for _, l := range x.Lhs {
+						if v, ok := identObj(pkg.TypesInfo, l).(*types.Var); ok {
+							delete(out, v)
+						}
+						if se, ok := ast.Unparen(l).(*ast.SelectorExpr); ok {
+							if v, ok := pkg.TypesInfo.Uses[se.Sel].(*types.Var); ok {
+								delete(out, v)
+							}
+						}
+					}
+				case *ast.UnaryExpr:
+					if x.Op == token.AND {
+						if v, ok := identObj(pkg.TypesInfo, x.X).(*types.Var); ok {
+							delete(out, v)
+						}
+					}
+				}
+				return true
+			})
+		}
+	}
+	p.sentinelVars = out
+	return out
+}
+
+func typeutilCallee(info *types.Info, call *ast.CallExpr) (string, bool) {
+	var id *ast.Ident
+	switch fn := ast.Unparen(call.Fun).(type) {
+	case *ast.Ident:
+		id = fn
+	case *ast.SelectorExpr:
+		id = fn.Sel
+	}
+	if id == nil {
+		return "", false
+	}
+	if f, ok := info.Uses[id].(*types.Func); ok && f.Pkg() != nil {
+		return f.Pkg().Path() + "." + f.Name(), true
+	}
+	return "", false
 }
